@@ -289,6 +289,12 @@ def run(ck):
             raise core.Machinery('clean run of %s on %s exits %s' % (cmd, b, rc))
         scenarios.append((cmd, b, 'clean', 0, None, mig, {'kind': 'none', 'path': ''}))
         torns = [None, 0.0, 0.5] if quick else [None, 0.0, 0.1, 0.25, 0.5, 0.75, 0.9]
+        if cmd == 'init':
+            # C15 is about the steps of the MIGRATION: `tally init` goes on to set up views / .gitignore afterwards, and those
+            # later writes are init's own (its last migration step is the move of the legacy CSV to its backup)
+            last = max([e['k'] for e in effects if 'merchant_categories.csv' in e.get('path', '') or
+                        'merchant_categories.csv' in str(e.get('dst', ''))] or [-1])
+            effects = [e for e in effects if e['k'] <= last]
         for e in effects:
             scenarios.append((cmd, b, 'fault', e['k'], None, mig, e))
             for tn in (torns if e['kind'] == 'write' else [None]):
